@@ -1,7 +1,7 @@
 (* C02_Properties.v — property theorems of C02 (semaphore).  Only `exact` of lemmas proved in
-   C02_Cons.v / C02_Safe.v / C02_Refute.v / C02_Locks3.v / C02_NLW.v, each followed by Print Assumptions. *)
+   C02_Cons.v / C02_Safe.v / C02_Refute.v / C02_Locks3.v / C02_NLW.v / C02_NoBarge.v, each followed by Print Assumptions. *)
 From Coq Require Import ZArith List Bool Arith.
-From PV Require Import Base.U64 C02.C02_Model C02.C02_Base C02.C02_Cons C02.C02_Safe C02.C02_Refute C02.C02_Locks C02.C02_LockProto C02.C02_Locks2 C02.C02_Locks3 C02.C02_Summ C02.C02_Credit C02.C02_Struct C02.C02_Other C02.C02_NLW.
+From PV Require Import Base.U64 C02.C02_Model C02.C02_Base C02.C02_Cons C02.C02_Safe C02.C02_Refute C02.C02_Locks C02.C02_LockProto C02.C02_Locks2 C02.C02_Locks3 C02.C02_Summ C02.C02_Credit C02.C02_Struct C02.C02_Other C02.C02_NLW C02.C02_Flow C02.C02_Flow2 C02.C02_Flow3 C02.C02_Aux C02.C02_NoBarge.
 Import ListNotations.
 Local Open Scope Z_scope.
 
@@ -103,3 +103,34 @@ Proof. exact nlw_inorder_uniform_hyps_met. Qed.
 Theorem sem_queue_structure : forall c ths nv s, reachable (init c false ths nv) s -> sinv s.
 Proof. exact sinv_reachable. Qed.
 Print Assumptions sem_queue_structure.
+
+(* ---- NO LOST WAKE-UP for ARBITRARY (mixed) demands, in-order mode, outside F35's class: the very
+   clause `nlw_inorder` that F35's witness refutes (sem_no_lost_wakeup_inorder_refuted above) HOLDS in
+   every reachable state, for every interleaving of any number of threads / vCPUs / OS threads with any
+   demands, signals, timeouts and interrupts, as long as no woken waiter's re-subtraction has failed
+   (ghost g_refail = false: nobody overtook a woken waiter on the fast path = the complement of F35)
+   and no thread_interrupt call carries the error number -1 (the value reserved for waitq::resume;
+   reachable_g): at quiescence the head waiter's demand exceeds m_count.  So a lost wake-up in
+   in-order mode can ONLY come from barging. ---- *)
+Theorem sem_no_lost_wakeup_inorder_nobarge : forall c ths nv s, 0 <= c < W64 ->
+  reachable_g (init c false ths nv) s -> g_refail s = false ->
+  quiescentb s = true -> match queue s with x :: _ => m_count s < t_semcnt (getth s x) | [] => True end.
+Proof. exact nlw_inorder_nobarge. Qed.
+Print Assumptions sem_no_lost_wakeup_inorder_nobarge.
+
+(* hypotheses met by a non-trivial MIXED-demand state (waiters 2 and 1, signal(2): the first is served,
+   the second stays queued, m_count = 0 < 1); and the guard is sharp on F35's witness: there g_refail = true *)
+Example sem_no_lost_wakeup_inorder_nobarge_nonvacuous :
+  exists s, reachable_g (init 0 false three 1) s /\ g_refail s = false /\ quiescentb s = true /\
+            queue s = [1%nat] /\ m_count s = 0 /\ g_ret0 s = 2.
+Proof. exact nlw_nobarge_hyps_met. Qed.
+Example sem_barge_witness_sets_refail :
+  exists s, run (init 0 false four 1) barge_sched = Some s /\ g_refail s = true /\ quiescentb s = true.
+Proof. exact barge_witness_has_refail. Qed.
+
+(* the second guard is necessary too: thread_interrupt(th, -1) acts as a fake resume (the woken head
+   waiter re-queues at the tail without passing on) - a lost wake-up with g_refail = false *)
+Theorem sem_no_lost_wakeup_inorder_fake_resume_refuted :
+  exists s, reachable (init 0 false three 1) s /\ ooo s = false /\ g_refail s = false /\ ~ nlw_inorder s.
+Proof. exact neg1_guard_needed. Qed.
+Print Assumptions sem_no_lost_wakeup_inorder_fake_resume_refuted.
